@@ -584,6 +584,22 @@ func (x *Exec) evalCall(env *Env, e *Expr) (Val, error) {
 			return nil, err
 		}
 		return Store(args[0], args[1], args[2]), nil
+	case "credit", "debit": // credit(bal, addr, denom, amount)
+		if err := need(4); err != nil {
+			return nil, err
+		}
+		row := Select(args[0], args[1])
+		cur := Select(row, args[2])
+		nv := Add(cur, args[3])
+		if name == "debit" {
+			nv = Sub(cur, args[3])
+		}
+		return Store(args[0], args[1], Store(row, args[2], nv)), nil
+	case "isempty":
+		if err := need(1); err != nil {
+			return nil, err
+		}
+		return Or(Eq(args[0], BytesNil), UF("bytes_empty", SBool, args[0])), nil
 	case "pow10":
 		if err := need(1); err != nil {
 			return nil, err
@@ -597,6 +613,9 @@ func (x *Exec) evalCall(env *Env, e *Expr) (Val, error) {
 	case "bech":
 		if err := need(1); err != nil {
 			return nil, err
+		}
+		if env.st != nil {
+			bechFacts(env.st, args[0])
 		}
 		return bechOfAddr(args[0]), nil
 	case "bechok":
@@ -701,6 +720,10 @@ func (x *Exec) evalCall(env *Env, e *Expr) (Val, error) {
 		}
 		return EMod(args[0], BigLit(two64)), nil
 	}
+	// calls of repo functions (executed symbolically; must have a single non-panicking outcome)
+	if v, ok, err := x.specRepoCall(env, name, e); ok || err != nil {
+		return v, err
+	}
 	// spec-level pure functions supplied by theories
 	if fn, ok := specFuncs[name]; ok {
 		var as []*Term
@@ -759,4 +782,51 @@ func (x *Exec) evalLets(env *Env, c *Contract) {
 		}
 		env.vars[l.Label] = x.autoDeref(env, v)
 	}
+}
+
+func (x *Exec) specRepoCall(env *Env, name string, e *Expr) (Val, bool, error) {
+	key := name
+	if !strings.Contains(name, ".") && env.pkg != nil {
+		key = env.pkg.Pkg.Name() + "." + name
+	}
+	fn := x.prog.findFunc(key)
+	if fn == nil || fn.Blocks == nil {
+		return nil, false, nil
+	}
+	if len(fn.Params) != len(e.Args) {
+		return nil, false, fmt.Errorf("%s: expects %d arguments", name, len(fn.Params))
+	}
+	var args []Val
+	for _, a := range e.Args {
+		v, err := x.eval1(env, a)
+		if err != nil {
+			return nil, false, err
+		}
+		args = append(args, x.autoDeref(env, v))
+	}
+	st := env.st.clone()
+	w := env.world()
+	if w != nil {
+		st.world = w
+	}
+	savedObls := x.obls
+	savedUnit := x.unit
+	x.unit = &Unit{Name: "spec:" + key}
+	outs := x.runFunction(fn, args, nil, st, nil, nil)
+	x.unit = savedUnit
+	x.obls = savedObls
+	var ok []*Outcome
+	for _, o := range outs {
+		if !o.panic {
+			ok = append(ok, o)
+		}
+	}
+	if len(ok) != 1 || len(ok[0].rets) != 1 {
+		return nil, false, fmt.Errorf("spec call %s: %d outcomes (need exactly one with one result)", name, len(ok))
+	}
+	// facts generated while executing the function are kept
+	for _, t := range ok[0].st.pc[len(env.st.pc):] {
+		env.st.assume(t)
+	}
+	return ok[0].rets[0], true, nil
 }
